@@ -355,6 +355,34 @@ func (e *env) directed(rng *rand.Rand) {
 			dc{"put-missing-digest", vh.Req{Method: "PUT", URL: l}, []string{"DIGEST_INVALID"}, any, sid},
 		)
 	}
+	// a request whose body ends before the announced length (or inside a chunk): the handler's read fails with an
+	// unexpected EOF. The client broke the request; it can still be listening (half-closed connection), so the
+	// answer counts
+	{
+		bb := []byte(fmt.Sprintf("body that ends early %d", e.idx))
+		bodyCodes := []string{"BLOB_UPLOAD_INVALID", "SIZE_INVALID", "DIGEST_INVALID"}
+		for _, ul := range []bool{false, true} {
+			sfx := ""
+			if ul {
+				sfx = "-chunked"
+			}
+			cases = append(cases,
+				dc{"body-ends-early:monolithic" + sfx, vh.Req{Method: "POST", URL: "/v2/r/blobs/uploads/?digest=" + vh.DigestOf("sha256", bb), Body: bb[:7], Short: len(bb) - 7, UnknownLen: ul}, bodyCodes, any, ""},
+				dc{"body-ends-early:manifest" + sfx, vh.Req{Method: "PUT", URL: "/v2/r/manifests/cut", H: map[string]string{"Content-Type": u.Mans[0].MT}, Body: u.Mans[0].Raw[:len(u.Mans[0].Raw)/2], Short: 9, UnknownLen: ul}, []string{"MANIFEST_INVALID", "SIZE_INVALID", "DIGEST_INVALID"}, any, ""})
+			for k := 0; k < 2; k++ {
+				ns := vh.Do(e.srv, vh.Req{Method: "POST", URL: "/v2/r/blobs/uploads/"})
+				if ns.Status != 202 || ns.H.Get("Location") == "" {
+					continue
+				}
+				l := ns.H.Get("Location")
+				if k == 0 {
+					cases = append(cases, dc{"body-ends-early:patch" + sfx, vh.Req{Method: "PATCH", URL: l, Body: bb[:5], Short: 4, UnknownLen: ul}, bodyCodes, any, sessID(l)})
+				} else {
+					cases = append(cases, dc{"body-ends-early:put" + sfx, vh.Req{Method: "PUT", URL: l + "&digest=" + vh.DigestOf("sha256", bb), Body: bb[:5], Short: len(bb) - 5, UnknownLen: ul}, bodyCodes, any, sessID(l)})
+				}
+			}
+		}
+	}
 	if presentBlob != "" {
 		// an unsatisfiable byte range on existing content is a client mistake too
 		cases = append(cases, dc{"unsatisfiable-range", vh.Req{Method: "GET", URL: "/v2/r/blobs/" + presentBlob, H: map[string]string{"Range": "bytes=99999999-"}}, []string{"SIZE_INVALID", "BLOB_UNKNOWN", "UNSUPPORTED"}, any, ""})
